@@ -70,7 +70,8 @@ theorem setValidity_false_some {v : Validity} {i : Nat} {v' : Validity} (h : set
   | none => simp [setValidity, SaModel.fail] at h
   | some _ => rfl
 
-theorem pushNone_bl {b : B} {path dt n md} (hg : GoodH b dt n md) (ha : At path dt n md b) : Bl [path] (pushNone b) := by
+theorem pushNone_bl {b : B} {path dt n md} (hg : GoodH b dt n md) (ha : At path dt n md b) (hcap : 1 ≤ room b) :
+    Bl [path] (pushNone b) := by
   have hp := ha.path
   have hself : b.path ∈ [path] := by rw [hp]; exact List.mem_singleton.2 rfl
   cases b with
@@ -94,11 +95,15 @@ theorem pushNone_bl {b : B} {path dt n md} (hg : GoodH b dt n md) (ha : At path 
     obtain ⟨hn, cname, cdt, cn, cmd, rfl, hsel⟩ := hsh
     have ht := hg.tot
     simp only [total, totalF, Bool.and_eq_true] at ht
-    have hd : defOK cdt cmd = true := by
+    have hd : defOK cdt cmd = true ∧ ((k : Int) ≤ 1 ∨ noDefU cdt = true) := by
       have := ht.2
       rw [← hn, hsome] at this
-      simpa [defOKF] using this
-    obtain ⟨el', he, _⟩ := pushDefaultK_totalH el k cdt cn cmd hw.2.2 hsel hd
+      simpa [defOKF, noDefUF] using this
+    simp only [room] at hcap
+    obtain ⟨el', he, _⟩ := pushDefaultK_totalH el k cdt cn cmd hw.2.2 hsel hd.1 (fun h => by
+      rcases hd.2 with h' | h'
+      · omega
+      · rw [h] at h'; cases h')
     rw [he]
     exact Bl.of_ok _
   | struct p len v fs cached next seen =>
@@ -116,7 +121,8 @@ theorem pushNone_bl {b : B} {path dt n md} (hg : GoodH b dt n md) (ha : At path 
       have := ht.2
       rw [← hn, hsome] at this
       simpa using this
-    obtain ⟨fs', he, _⟩ := pushDefaultKAll_totalH fs 1 sfs len hw.2.1 hsl hd
+    simp only [room] at hcap
+    obtain ⟨fs', he, _⟩ := pushDefaultKAll_totalH fs 1 sfs len hw.2.1 hsl hd (fun _ => hcap)
     rw [he]
     exact Bl.of_ok _
   | dictionary p idx vals index =>
